@@ -30,6 +30,8 @@ for line in log:
                       "line": f"fixed: property={p} {h} {s[5:]}"})
 openf, seen = [], set()
 srcs = sorted(glob.glob(os.path.join(root,'checks','*','findings.json')))
+kf = os.path.join(root,'known_findings.json')
+if os.path.exists(kf): srcs = [kf] + srcs
 for f in srcs:
     for x in json.load(open(f))['findings']:
         if x.get('status') != 'open': continue
